@@ -407,8 +407,11 @@ def calls_in(node) -> List[ast.Call]:
     a = node.ast if isinstance(node, Node) else node
     if a is None or isinstance(a, WithExit):
         return []
-    if isinstance(node, Node) and node.kind == "with_enter":
-        a = a.context_expr
+    if isinstance(node, Node):
+        if node.kind not in ("stmt", "test", "with_enter"):
+            return []   # 'iter'/'br' nodes repeat an expression evaluated at another node
+        if node.kind == "with_enter":
+            a = a.context_expr
     return [s for s in walk_no_nested(a) if isinstance(s, ast.Call)]
 
 
@@ -452,3 +455,20 @@ def no_redefinition_between(cfg: CFG, a: Node, b: Node, name: str) -> bool:
             if any(m is b for m in cfg.reachable_from([n])):
                 return False
     return True
+
+
+def reaching_defs(cfg: CFG, node: Node, name: str) -> List[Node]:
+    """CFG nodes that (re)bind ``name`` and reach ``node`` without an
+    intervening rebinding (backward walk over all edge kinds)."""
+    out, seen = [], set()
+    stack = [p for _, p in node.pred]
+    while stack:
+        n = stack.pop()
+        if n.id in seen:
+            continue
+        seen.add(n.id)
+        if name in assigned_names(n):
+            out.append(n)
+            continue
+        stack.extend(p for _, p in n.pred)
+    return out
